@@ -2,6 +2,7 @@ pub mod c01_04;
 pub mod c07_12_13;
 pub mod c06_08_16;
 pub mod c14_15;
+pub mod c05;
 
 use crate::alpha::*;
 use crate::report::*;
@@ -71,6 +72,18 @@ pub fn run(prop: &str, tier: &str) -> i32 {
                 run.explore(&items, c06_08_16::eval_c16, |s| s.0.to_json());
             }
         }
+        "C05" | "C05DBG" => {
+            run.rule = "families A (all E1 states: exact dyadic lattices incl. walls/edges/corners, single generators, collinear/coplanar/co-spherical subsets; generic pool), B1 (one generator displaced by 2^-20..2^-50 along 3 directions), B2 (clusters scaled by 2^-10..2^-40 about centre/corner, with/without a far generator), B3 (co-spherical integer shells, co-circular in 2D), C (thirds lattice), 4^3 lattice with <= 1 deviation; each state through Voronoi::build, VoronoiIntegrator::build and build_partial (all masks, n <= 3); release build additionally evaluates the C01-C04 verdict functions and every near-tie vertex decision against the integer oracle; non-trivial = the exact predicate was reached".to_string();
+            run.assumptions.push(format!("this run: build kind = {} (the check runs a debug-assertions build and a release build)", c05::build_kind()));
+            if prop == "C05DBG" {
+                run.property = "C05".to_string();
+                run.known = load_known_findings("C05");
+            }
+            for (desc, states, _) in c05::c05_families(run.thorough()) {
+                run.family(desc, states.len() as u64);
+                run.explore(&states, c05::eval_c05, |s| s.to_json());
+            }
+        }
         "C14" => {
             run.rule = format!("{}; x all 2^n masks (n <= 3) x {{without faces, with faces (3D)}}; recording integrals implemented by this downstream crate (monomials of degree <= 2, face triangles)", E1_RULE);
             run_e1(&mut run, &[1, 2, 3], &[false, true], 99, c14_15::eval_c14);
@@ -118,6 +131,7 @@ pub fn replay(path: &str) -> i32 {
                 c06_08_16::eval_c16(&(st.clone(), vec![]))
             }
         }
+        "c05" => c05::eval_c05(&st),
         "c14" => c14_15::eval_c14(&st),
         "c15" => c14_15::eval_c15(&st),
         "c07" => c07_12_13::eval_c07_with(&st, 5),
@@ -133,7 +147,7 @@ pub fn replay(path: &str) -> i32 {
     let mut n = 0;
     for i in &e.issues {
         println!("ISSUE clause={} case={}\n   {}", i.clause, i.case, i.detail);
-        if i.clause == clause {
+        if i.clause == clause || clause.ends_with(&format!("/{}", i.clause)) {
             n += 1;
         }
     }
